@@ -34,16 +34,17 @@ def newColumnName (g : Geo) (istart : Nat) : Except Exc (Name × Nat) :=
 
 /-! ### `split_column` -/
 
-/-- `split_column(colname, nodename)`; the Boolean is the method's return value -/
-def splitColumn (g : Geo) (colname nodename : Name) : Except Exc (Geo × Bool) :=
+/-- `split_column(colname, nodename)` up to (excluding) the final `setup_*` calls;
+    `none` = the method returns `False` without touching the geometry -/
+def splitCore (g : Geo) (colname nodename : Name) : Except Exc (Option Geo) :=
   match g.columnD.get? colname with
-  | none => .ok (g, false)
+  | none => .ok none
   | some ci =>
     let col := g.col ci
-    if col.nodes.length ≠ 4 then .ok (g, false)
+    if col.nodes.length ≠ 4 then .ok none
     else
       match col.nodes.findIdx? (fun n => (g.node n).name = nodename) with
-      | none => .ok (g, false)                       -- `except ValueError: return False`
+      | none => .ok none                             -- `except ValueError: return False`
       | some i0 => do
         let nodeAt (k : Nat) : Nat := col.nodes.getD ((i0 + k) % 4) 0
         let (colname2, _) ← g.newColumnName 0
@@ -82,9 +83,15 @@ def splitColumn (g : Geo) (colname nodename : Name) : Except Exc (Geo × Bool) :
         let g := g.updCol c2 fun c => { c with numLayers := col.numLayers }
         let g := g.rekeyConnections
         let g := g.registerColumn c2
-        let g := g.addConnection ci c2
-        let g ← g.setupNames
-        pure (g, true)
+        pure (some (g.addConnection ci c2))
+
+/-- `split_column(colname, nodename)`; the Boolean is the method's return value -/
+def splitColumn (g : Geo) (colname nodename : Name) : Except Exc (Geo × Bool) := do
+  match ← g.splitCore colname nodename with
+  | none => pure (g, false)
+  | some g1 => do
+    let g2 ← g1.setupNames
+    pure (g2, true)
 
 /-! ### `subdivide_column`, `triangulate_column`, `decompose_column(s)` -/
 
@@ -362,6 +369,48 @@ def bisectionSides (poly : List Pt) (dir : Bisect) : Option (Nat × Nat) :=
       let imax := argsortStable ds
       sides[imax.getD (nn - 1) 0]?
 
+/-! ### decisions that the floating-point code may take differently
+
+The model decides comparisons exactly.  The real code compares rounded doubles, so a comparison
+between two numbers that are equal or nearly equal in exact arithmetic can go either way unless
+both are computed exactly.  These predicates flag such cases; the harness discards them (counted
+as `unstable`), it never reports them. -/
+
+/-- a dyadic rational of moderate size: arithmetic on such coordinates is exact in double precision -/
+def smallDyadic (r : Rat) : Bool :=
+  r.den ≤ 1048576 && (r.den &&& (r.den - 1)) = 0 && r.num.natAbs < 1099511627776
+
+def nearTie (a b : Rat) : Bool :=
+  let d := if a ≤ b then b - a else a - b
+  let m := if a ≤ b then b else a
+  decide (d * 1000000000 ≤ m)
+
+/-- the sort in `bisection_sides` has two keys that are (nearly) equal without being exactly computable -/
+def bisectUnstable (poly : List Pt) (dir : Bisect) : Bool :=
+  let nn := poly.length
+  let p (i : Nat) : Pt := poly.getD (i % nn) (0, 0)
+  let exact := poly.all fun q => smallDyadic q.1 && smallDyadic q.2
+  let keys : List Rat :=
+    match dir with
+    | .no => []
+    | .longest => (List.range nn).map fun i => let d := Pt.sub (p (i + 1)) (p i); dot d d
+    | d =>
+      (List.range nn).map fun i =>
+        let i2 := if nn = 3 then (i + 1) % nn else (i + 2) % nn
+        let v := Pt.sub (Pt.mid (p i2) (p (i2 + 1))) (Pt.mid (p i) (p (i + 1)))
+        let w := if d = .y then v.2 else v.1
+        if w < 0 then -w else w
+  (List.range keys.length).any fun i => (List.range keys.length).any fun j =>
+    i < j && nearTie (keys.getD i 0) (keys.getD j 0) && !(exact && keys.getD i 0 = keys.getD j 0)
+
+def refineUnstable (g : Geo) (cols : List Nat) (bisect : Bisect) : Bool :=
+  let cols := if cols.isEmpty then g.columnlist else cols
+  bisect ≠ .no && cols.any fun c => bisectUnstable (g.polygon (g.col c).nodes) bisect
+
+def decomposeUnstable (g : Geo) (cols : List Nat) : Bool :=
+  let cols := if cols.isEmpty then g.columnlist else cols
+  cols.any fun c => (g.col c).nodes.length > 4 && nearlyStraight (g.polygon (g.col c).nodes)
+
 /-! ### `refine` -/
 
 abbrev SideNodes := List ((Name × Name) × Nat)
@@ -392,9 +441,14 @@ def createMidNode (st : RefState) (n1 n2 : Nat) : Except Exc RefState := do
   | some last =>
     pure { st with g, nodenumber, side := st.side.set (g.node n1).name (g.node n2).name last }
 
-/-- `refine(columns, bisect, bisect_edge_columns)` (`columns = []` means all) -/
-def refine (g : Geo) (cols : List Nat) (bisect : Bisect) (edge : List Nat) : Except Exc Geo := do
-  let cols := if cols.isEmpty then g.columnlist else cols
+/-- what `refine` has worked out before it checks that it supports the selection: the mid-side nodes created so
+    far (bisection of boundary sides), the connections to refine and `columns_plus_edge` -/
+structure RefPlan where
+  st : RefState
+  conns : List Nat
+  plusEdge : List Nat
+
+def refinePlan (g : Geo) (cols : List Nat) (bisect : Bisect) (edge : List Nat) : Except Exc RefPlan := do
   let st : RefState := { g }
   -- connections to refine (a set, insertion order) and, when bisecting, boundary mid-side nodes
   let (st, conns) ← (if bisect ≠ .no then
@@ -417,69 +471,83 @@ def refine (g : Geo) (cols : List Nat) (bisect : Bisect) (edge : List Nat) : Exc
       pure (st, cols.foldl (fun conns c => (g.col c).cons.foldl setAdd conns) []))
   let plusEdge := (cols ++ edge).eraseDups
   let plusEdge := conns.foldl (fun s k => setAdd (setAdd s (st.g.con k).c0) (st.g.con k).c1) plusEdge
-  if plusEdge.all fun c => (st.g.col c).nodes.length = 3 || (st.g.col c).nodes.length = 4 then
-    -- bisect edge columns if required
-    let conns := edge.foldl (fun conns c =>
-      (st.g.col c).cons.foldl (fun conns k =>
-        if edge.contains (st.g.con k).c0 && edge.contains (st.g.con k).c1 then setAdd conns k else conns) conns) conns
-    -- mid-side nodes at connections
-    let st ← conns.foldlM (fun (st : RefState) k =>
-      match (st.g.con k).nodes with
-      | some (a, b) => createMidNode st a b
-      | none => throw Exc.typeError) st
-    -- mid-side nodes on grid boundaries in the refinement area
-    let st ← (if bisect = .no then do
-        let bdy ← st.g.boundaryNodes
-        cols.foldlM (fun (st : RefState) c => do
-          let nodes := (st.g.col c).nodes
-          (cyc nodes).foldlM (fun (st : RefState) e =>
-            if bdy.contains e.1 && bdy.contains e.2 &&
-                (st.side.get? (st.g.node e.1).name (st.g.node e.2).name).isNone then
-              createMidNode st e.1 e.2
-            else pure st) st) st
-      else pure st)
-    -- refined columns (and centre nodes for quadrilaterals that need them)
-    let (st, unrefined) ← plusEdge.foldlM (fun (acc : RefState × List Nat) c => do
-      let (st, unrefined) := acc
-      let col := st.g.col c
-      let nn := col.nodes.length
-      let nameOf (i : Nat) : Name := (st.g.node (col.nodes.getD (i % nn) 0)).name
-      let sides := (List.range nn).filter fun i => (st.side.get? (nameOf i) (nameOf (i + 1))).isSome
-      if sides.isEmpty then pure (st, unrefined ++ [c])      -- edge column not touched by the bisection
-      else
-      match Refine.transitionType nn sides with
-      | none => throw Exc.typeError                   -- unpacking `None`
-      | some (nref, istart, irange) => do
-        let (st, centre) ← (if Refine.needsCentre nn nref irange then do
-            let (nm, nodenumber) ← st.g.newNodeName st.nodenumber
-            let g := st.g.addNode nm col.centre
-            pure ({ st with g, nodenumber }, g.nodelist.getLast?)
-          else pure (st, none))
-        match Refine.tableEntry nn nref irange with
-        | none => throw Exc.keyError
-        | some entry =>
-          let st ← entry.foldlM (fun (st : RefState) sub => do
-            let (nm, colnumber) ← st.g.newColumnName st.colnumber
-            let nodes ← sub.mapM fun
-              | .corner v => pure (col.nodes.getD ((istart + v) % nn) 0)
-              | .centre => (match centre with | some n => pure n | none => throw Exc.keyError)
-              | .mid i j =>
-                (match st.side.get? (nameOf (istart + i)) (nameOf (istart + j)) with
-                 | some n => pure n
-                 | none => throw Exc.keyError)
-            let g ← st.g.addColumn nm nodes none col.surface
-            let g := match g.columnlist.getLast? with
-              | some l => g.updCol l fun cl => { cl with numLayers := col.numLayers }
-              | none => g
-            pure { st with g, colnumber }) st
-          pure (st, unrefined)) (st, [])
-    -- clean up
-    let g ← (plusEdge.filter fun c => !unrefined.contains c).foldlM (fun (g : Geo) c => g.deleteColumn (g.col c).name) st.g
-    let g ← g.addMissingConnections
-    let g := g.identifyNeighbours
-    g.setupNames
-  else
-    pure st.g          -- 'Grid selection contains columns with more than 4 nodes: not supported.'
+  pure { st, conns, plusEdge }
+
+/-- `all([col.num_nodes in [3, 4] for col in columns_plus_edge])` -/
+def RefPlan.supported (p : RefPlan) : Bool :=
+  p.plusEdge.all fun c => (p.st.g.col c).nodes.length = 3 || (p.st.g.col c).nodes.length = 4
+
+/-- the body of `refine` once the selection is known to be supported -/
+def refineApply (p : RefPlan) (cols : List Nat) (bisect : Bisect) (edge : List Nat) : Except Exc Geo := do
+  let st := p.st
+  let plusEdge := p.plusEdge
+  -- bisect edge columns if required
+  let conns := edge.foldl (fun conns c =>
+    (st.g.col c).cons.foldl (fun conns k =>
+      if edge.contains (st.g.con k).c0 && edge.contains (st.g.con k).c1 then setAdd conns k else conns) conns) p.conns
+  -- mid-side nodes at connections
+  let st ← conns.foldlM (fun (st : RefState) k =>
+    match (st.g.con k).nodes with
+    | some (a, b) => createMidNode st a b
+    | none => throw Exc.typeError) st
+  -- mid-side nodes on grid boundaries in the refinement area
+  let st ← (if bisect = .no then do
+      let bdy ← st.g.boundaryNodes
+      cols.foldlM (fun (st : RefState) c => do
+        let nodes := (st.g.col c).nodes
+        (cyc nodes).foldlM (fun (st : RefState) e =>
+          if bdy.contains e.1 && bdy.contains e.2 &&
+              (st.side.get? (st.g.node e.1).name (st.g.node e.2).name).isNone then
+            createMidNode st e.1 e.2
+          else pure st) st) st
+    else pure st)
+  -- refined columns (and centre nodes for quadrilaterals that need them)
+  let (st, unrefined) ← plusEdge.foldlM (fun (acc : RefState × List Nat) c => do
+    let (st, unrefined) := acc
+    let col := st.g.col c
+    let nn := col.nodes.length
+    let nameOf (i : Nat) : Name := (st.g.node (col.nodes.getD (i % nn) 0)).name
+    let sides := (List.range nn).filter fun i => (st.side.get? (nameOf i) (nameOf (i + 1))).isSome
+    if sides.isEmpty then pure (st, unrefined ++ [c])      -- edge column not touched by the bisection
+    else
+    match Refine.transitionType nn sides with
+    | none => throw Exc.typeError                   -- unpacking `None`
+    | some (nref, istart, irange) => do
+      let (st, centre) ← (if Refine.needsCentre nn nref irange then do
+          let (nm, nodenumber) ← st.g.newNodeName st.nodenumber
+          let g := st.g.addNode nm col.centre
+          pure ({ st with g, nodenumber }, g.nodelist.getLast?)
+        else pure (st, none))
+      match Refine.tableEntry nn nref irange with
+      | none => throw Exc.keyError
+      | some entry =>
+        let st ← entry.foldlM (fun (st : RefState) sub => do
+          let (nm, colnumber) ← st.g.newColumnName st.colnumber
+          let nodes ← sub.mapM fun
+            | .corner v => pure (col.nodes.getD ((istart + v) % nn) 0)
+            | .centre => (match centre with | some n => pure n | none => throw Exc.keyError)
+            | .mid i j =>
+              (match st.side.get? (nameOf (istart + i)) (nameOf (istart + j)) with
+               | some n => pure n
+               | none => throw Exc.keyError)
+          let g ← st.g.addColumn nm nodes none col.surface
+          let g := match g.columnlist.getLast? with
+            | some l => g.updCol l fun cl => { cl with numLayers := col.numLayers }
+            | none => g
+          pure { st with g, colnumber }) st
+        pure (st, unrefined)) (st, [])
+  -- clean up
+  let g ← (plusEdge.filter fun c => !unrefined.contains c).foldlM (fun (g : Geo) c => g.deleteColumn (g.col c).name) st.g
+  let g ← g.addMissingConnections
+  let g := g.identifyNeighbours
+  g.setupNames
+
+/-- `refine(columns, bisect, bisect_edge_columns)` (`columns = []` means all) -/
+def refine (g : Geo) (cols : List Nat) (bisect : Bisect) (edge : List Nat) : Except Exc Geo := do
+  let cols := if cols.isEmpty then g.columnlist else cols
+  let p ← g.refinePlan cols bisect edge
+  if p.supported then refineApply p cols bisect edge
+  else pure p.st.g          -- 'Grid selection contains columns with more than 4 nodes: not supported.'
 
 end Geo
 end Model.Geo
